@@ -52,7 +52,16 @@ where
         if version.as_str() == FSM_READER_VERSION {
             fsm.name = self.reader.read_string();
             fsm.datamodel = self.reader.read_string();
-            fsm.binding = BindingType::from_ordinal(self.reader.read_u8());
+            let binding_ordinal = self.reader.read_u8();
+            if self.reader.has_error() {
+                // truncated or unreadable image: don't interpret values of a failed read
+                return Err("Can't read".to_string());
+            }
+            fsm.binding = match binding_ordinal {
+                1 => BindingType::Early,
+                2 => BindingType::Late,
+                _ => return Err(format!("Unknown ordinal {} for BindingType", binding_ordinal)),
+            };
             fsm.pseudo_root = self.read_state_id();
             fsm.script = self.read_executable_content_id();
 
@@ -80,6 +89,10 @@ where
                 fsm.executableContent.insert(content_id, content);
             }
 
+            if self.reader.has_error() {
+                // A partial (truncated) or unreadable image must never be returned as a valid FSM.
+                return Err("Can't read".to_string());
+            }
             let end = SystemTime::now().duration_since(UNIX_EPOCH).unwrap();
             info!(
                 "'{}' (RFSM) loaded in {}ms",
